@@ -115,7 +115,7 @@ func (monC05) AtEnd(x *Exec) {
 					if !a.HasErr || !a.Permanent || a.HasResp {
 						bad("want a permanent error, got err=%v permanent=%v resp=%v", a.HasErr, a.Permanent, a.HasResp)
 					}
-				case Trans:
+				case Trans, TransZero:
 					if !a.HasErr || a.Permanent || a.HasResp {
 						bad("want a transient error, got err=%v permanent=%v resp=%v", a.HasErr, a.Permanent, a.HasResp)
 					}
@@ -148,7 +148,7 @@ func (monC05) AtEnd(x *Exec) {
 // retryScripts enumerates all canonical outcome scripts for a retry budget: j retryable outcomes (j<=retries+1)
 // followed, when j<=retries, by one final outcome.
 func retryScripts(retries int, late bool) [][]string {
-	retryable := []string{Trans, Overrun, RespTrans}
+	retryable := []string{Trans, Overrun, RespTrans, TransZero}
 	final := []string{OK, Perm, WrongType, NilResp, RespPerm, WrongTrans, WrongPerm, PermWrap, WrongNamed}
 	if late {
 		final = append(final, Late)
